@@ -29,7 +29,9 @@ def source(draw, idx):
         base = draw(st.sampled_from(SHARED_LAYOUTS))
         lay = dict(base, sign=draw(st.sampled_from(['', '', 'override'])), dialect=draw(st.sampled_from(['comma', 'comma', ';', 'tab', '|'])), header=draw(st.booleans()),
                    decimal=draw(st.sampled_from(['.', '.', ','])), spell=draw(st.sampled_from([0, 0, 1 << 14])), source='x')
-    lay = dict(lay, source=SOURCE_NAMES[idx % len(SOURCE_NAMES)] + ('' if idx < len(SOURCE_NAMES) else str(idx)))
+    # one card split over several files: two sources may carry the SAME name
+    nm = SOURCE_NAMES[0] if (idx > 0 and draw(st.integers(0, 4)) == 0) else SOURCE_NAMES[idx % len(SOURCE_NAMES)] + ('' if idx < len(SOURCE_NAMES) else str(idx))
+    lay = dict(lay, source=nm)
     rows = draw(st.lists(C05.row(lay), min_size=1, max_size=8))
     # budget descriptions: mostly merchant-like words so that rules match
     for r in rows:
